@@ -261,6 +261,16 @@ def denseCopy (m cap : Nat) (h : Heap) : Outcome :=
     | (true, r, h2) => Outcome.ofHeap true true (drowDestroy r h2)
     | (false, r, h2) => Outcome.ofHeap false (r.ok || cap < m) (drowDestroy r h2)
 
+/-- `Dense_Row::operator=(const Sparse_Row&)`, reallocation branch (`capacity() < row.size()`):
+`destroy(); init(row);`.  `destroy()` deallocates `impl.vec` **without resetting the pointer**, and
+`init` assigns `impl.vec` only after its allocation succeeded: if that allocation throws, the row
+still holds the released pointer and `~Impl()` deallocates it a second time. -/
+def denseAssignSparse (r : DRow) (m : Nat) (h : Heap) : Outcome :=
+  let h1 := (h.freeAll r.elems.reverse).freeOpt r.vec          -- destroy()
+  match h1.alloc with                                           -- init(row): impl.vec = allocate(row.size())
+  | (none, h2) => Outcome.ofHeap true (DRow.ok { vec := r.vec, cap := m, elems := [] }) (drowDestroy { vec := r.vec, cap := m, elems := [] } h2)
+  | (some v, h2) => finishGrow (growLoop m { vec := some v, cap := m, elems := [] } h2)
+
 /-! ## Swapping_Vector -/
 
 /-- A `std::vector<T>` of elements each owning one block. -/
@@ -504,6 +514,8 @@ def denseResize (m cap newSize pre k : Nat) : Outcome :=
   let (r, h) := buildRow m cap (Heap.start pre k); Alloc.denseResize r newSize h
 def svecPush (m cap pre k : Nat) : Outcome :=
   let (v, h) := buildVec m cap (Heap.start pre k); Alloc.svecPush v h
+def denseAssignSparse (m0 cap m pre k : Nat) : Outcome :=
+  let (r, h) := buildRow m0 cap (Heap.start pre k); Alloc.denseAssignSparse r m h
 def pipClone (guard : Bool) (t : PNode) (pre k : Nat) : Outcome := Alloc.pipClone guard t (Heap.start pre k)
 def mipAdd (m cap pre k : Nat) : Outcome :=
   let (s, h) := buildSeq m cap (Heap.start pre k); Alloc.mipAdd s h
